@@ -472,6 +472,9 @@ func runC07(args []string) {
 		rng := newRand(int64(fl.int("seed", 1)), "c07gen")
 		for i, n := 0, fl.int("n", 200); i < n; i++ {
 			c := c07RandomCase(rng)
+			if i == 3 {
+				c = c07Ladder(26 + rng.Intn(8))
+			}
 			c["rot"] = i
 			one(normalize(c))
 		}
@@ -630,4 +633,26 @@ func c07Aliased(g map[string]any) map[string]bool {
 		}
 	}
 	return out
+}
+
+
+// c07Ladder: k mappings L0..Lk, each merging the next one TWICE (`<<: [&L(i+1) {...}, *L(i+1)]`: once by its inline
+// definition, once by alias), the innermost merging L0 again (a merge cycle). Every mapping is reachable along 2^i merge
+// paths; a decoder that remembers what it has merged walks each once. The document and its expansion are of size k.
+func c07Ladder(k int) obj {
+	g := obj{"S": []any{}}
+	want := []any{}
+	for i := 0; i <= k; i++ {
+		name := fmt.Sprintf("L%d", i)
+		es := []any{obj{"m": false, "k": fmt.Sprintf("k%d", i), "v": obj{"t": "s", "s": fmt.Sprintf("v%d", i)}}}
+		if i < k {
+			next := fmt.Sprintf("L%d", i+1)
+			es = append(es, obj{"m": true, "k": "<<", "v": obj{"t": "q", "e": []any{obj{"t": "n", "n": next}, obj{"t": "a", "n": next}}}})
+		} else {
+			es = append(es, obj{"m": true, "k": "<<", "v": obj{"t": "a", "n": "L0"}})
+		}
+		g[name] = es
+		want = append(want, fmt.Sprintf("k%d", i))
+	}
+	return obj{"g": g, "root": "L0", "akeys": false, "spell": false, "child": true, "cyc": false, "timeonly": true, "wantkeys": want}
 }
